@@ -9,8 +9,9 @@ package verifhook
 var Yield func(site string, arg interface{})
 
 // CritFn, when set by the harness, is called by log.Crit before the process
-// would exit; the harness ends the calling goroutine instead ("process died").
-var CritFn func(msg string)
+// would exit. It may park the calling goroutine ("the process died here") and,
+// by returning true, make log.Crit return to its caller instead of exiting.
+var CritFn func(msg string) bool
 
 // Enabled reports whether the hooks are compiled in.
 const Enabled = true
@@ -22,9 +23,11 @@ func Point(site string, arg interface{}) {
 	}
 }
 
-// Crit is called right before a fatal log exits the process.
-func Crit(msg string) {
+// Crit is called right before a fatal log exits the process; true means the
+// harness has handled the "death" and the process must not exit.
+func Crit(msg string) bool {
 	if CritFn != nil {
-		CritFn(msg)
+		return CritFn(msg)
 	}
+	return false
 }
